@@ -869,6 +869,72 @@ def run(ctx):
     lineage_oracle_only(ctx, rng, 15 if q else 300)
     incremental_lineage_models(ctx, rng, 25 if q else 400)
     parameter_free_rules(ctx)
+    event_added_after_a_run(ctx)
+
+
+def event_added_after_a_run(ctx):
+    """a lineage model used with one division event, then given a second one with another splitter (and the first switched
+    off through its species): every division is made by the second event and fits *its* splitter - X copied to both
+    daughters, Y split perfectly, Z and the volume conserved - exactly as when both events are there from the start."""
+    import warnings
+    from bioscrape.lineage import LineageModel, LineageVolumeSplitter, py_SimulateCellLineage
+    from bioscrape.random import py_seed_random
+    T = np.linspace(0, 10, 201)
+
+    def base():
+        M = LineageModel(species=["X", "Y", "Z", "S"], reactions=[([], ["Z"], "massaction", {"k": 5.0})], initial_condition_dict={"X": 40, "Y": 41, "Z": 10, "S": 0})
+        M.create_volume_rule("linear", {"growth_rate": 0.4})
+        return M
+
+    def stress(M):
+        M.create_division_event("division", {}, "massaction", {"k": 0.2, "species": "S"}, LineageVolumeSplitter(M, options={"default": "binomial"}, partition_noise=0.2))
+
+    def regular(M):
+        M.create_division_event("division", {}, "massaction", {"k": 0.25, "species": ""},
+                                LineageVolumeSplitter(M, options={"default": "binomial", "X": "duplicate", "Y": "perfect"}, partition_noise=0.2))
+
+    def sim(M, seed):
+        py_seed_random(seed); np.random.seed(seed)
+        with warnings.catch_warnings():
+            warnings.simplefilter("ignore")
+            return py_SimulateCellLineage(T, Model=M)
+    for seed in (11, 12):
+        for how in ("both events from the start", "second event added after a run"):
+            case = {"scenario": "division events with different splitters", "built": how, "seed": seed}
+            ctx.begin_case(case)
+            M = base(); stress(M)
+            if how.startswith("both"):
+                regular(M)
+            else:
+                M.set_species({"S": 5}); sim(M, seed); M.set_species({"S": 0}); regular(M)
+            L = sim(M, seed)
+            ctx.evaluated()
+            iX, iY, iZ = (M.get_species_index(s_) for s_ in "XYZ")
+            ndiv = 0
+            for i in range(L.py_size()):
+                m = L.py_get_schnitz(i)
+                d1, d2 = m.py_get_daughters()
+                if d1 is None and d2 is None:
+                    continue
+                ndiv += 1
+                ml, a, b = m.py_get_data()[-1], d1.py_get_data()[0], d2.py_get_data()[0]
+                mv, av, bv = m.py_get_volume()[-1], d1.py_get_volume()[0], d2.py_get_volume()[0]
+                problems = []
+                if abs(av + bv - mv) > 1e-9 * mv or av <= 0 or bv <= 0:
+                    problems.append("volume %g + %g != %g" % (av, bv, mv))
+                if not (a[iX] == ml[iX] and b[iX] == ml[iX]):
+                    problems.append("X (duplicate): mother %g -> daughters %g, %g" % (ml[iX], a[iX], b[iX]))
+                if a[iY] + b[iY] != ml[iY] or abs(a[iY] - av / mv * ml[iY]) > 1.0 + 1e-9:
+                    problems.append("Y (perfect): mother %g -> daughters %g, %g (volume fraction %.3f)" % (ml[iY], a[iY], b[iY], av / mv))
+                if a[iZ] + b[iZ] != ml[iZ]:
+                    problems.append("Z (binomial): mother %g -> daughters %g, %g" % (ml[iZ], a[iZ], b[iZ]))
+                if problems:
+                    ctx.violation("division/event-splitter/" + ("incremental" if not how.startswith("both") else "at-once"),
+                                  "%s: the division of cell %d does not fit the splitter of the event that caused it: %s" % (how, i, "; ".join(problems)), dict(case, cell=i))
+                    return
+            ctx.count("event_splitter_divisions", ndiv)
+            if ndiv == 0:
+                ctx.notes.append("event_added_after_a_run: no division observed (%s, seed %d)" % (how, seed))
 
 
 def replay(ctx, obj):
